@@ -333,7 +333,9 @@ func (h *hostile) receive(pd *spec.PDU, frame []byte, mustErr bool, kind string)
 		h.afterAccept(fresh, site, len(frame))
 	}
 	// 2. through the dispatcher
-	h.dispatch(pd.Proto, frame, kind)
+	if acc := h.dispatch(pd.Proto, frame, kind); acc && mustErr {
+		r.Fail("C03", "truncated-accepted", "Decode"+strings.ToUpper(pd.Proto.Name), kind, "the dispatcher reported success for %d octets of a %s whose mandatory part is incomplete", len(frame), site)
+	}
 	// 3. routed to a wrong decoder of the same protocol
 	others := pd.Proto.PDUs
 	o := others[r.C.Intn(len(others))]
@@ -344,20 +346,22 @@ func (h *hostile) receive(pd *spec.PDU, frame []byte, mustErr bool, kind string)
 	}
 }
 
-func (h *hostile) dispatch(p *spec.Proto, frame []byte, kind string) {
+func (h *hostile) dispatch(p *spec.Proto, frame []byte, kind string) (accepted bool) {
 	var pdu protocol.PDU
 	var err error
 	label := "Decode" + strings.ToUpper(p.Name)
 	if !h.guarded(label, len(frame), func() { pdu, err = dispatcher[p.Name](append([]byte(nil), frame...)) }) {
-		return
+		return false
 	}
 	if err == nil && pdu == nil {
 		h.r.Fail("C03", "nil-nil", label, kind, "dispatcher returned neither a PDU nor an error for %d octets", len(frame))
-		return
+		return false
 	}
 	if err == nil {
 		h.afterAccept(pdu, typeSite(pdu), len(frame))
+		return true
 	}
+	return false
 }
 
 // afterAccept exercises everything a node does with a PDU it accepted.
